@@ -60,10 +60,21 @@ TrManual ==
 \* judged by the write/read round trip itself)
 TrFdwra ==
     /\ Consume("Fdwra")
-    /\ \E its \in [Az -> 1..Ev.mi], mu \in BOOLEAN :
-          /\ FdwraP("P", Tup2(Ev.r), Ev.kw, Tup2(Ev.n), Ev.mi, Ev.t.pk,
-                    [a \in Az |-> [st |-> "ok", it |-> its[a], vw |-> Ev.t.vw[a], vp |-> Ev.t.vp[a]]], mu)
-          /\ Ev.it = (CHOOSE m \in { its[a] : a \in Az } : \A a \in Az : its[a] <= m)
+    /\ LET r    == Tup2(Ev.r)
+           noop == r = rng /\ Ev.kw /\ kwe
+           p0   == IF noop THEN pk ELSE Ev.t.pk
+           w0   == IF noop THEN vw ELSE MaskVW(p0)
+           v0   == IF noop THEN vp ELSE MaskVP(p0)
+           \* property-level outcomes of azimuth a that end in the recorded masks
+           outs(a) == { o \in Fdwra1("P", a, p0, r, Tup2(Ev.n), Ev.mi, w0[a], v0[a]) :
+                          o.st = "ok" /\ o.vw = Ev.t.vw[a] /\ o.vp = Ev.t.vp[a] }
+       IN /\ noop \/ PeaksAllowed(p0, r)
+          /\ \A a \in Az : \E o \in outs(a) : o.it <= Ev.it      \* returned value = max over the azimuths
+          /\ \E a \in Az : \E o \in outs(a) : o.it = Ev.it
+          /\ rng' = r /\ pk' = p0 /\ kwe' = kwe
+          /\ vw' = Ev.t.vw /\ vp' = Ev.t.vp
+          /\ mrng' \in {r, mrng}
+          /\ UNCHANGED cv
     /\ PostMatches(FALSE)
     /\ last' = [op |-> "Fdwra"]
 
